@@ -239,6 +239,10 @@ pub async fn handshake_handler(w: Rc<World>, plan: Rc<Plan>, h: v5::Handshake) -
     );
     let (gid, _) = w.gate_enter(conn, GateKind::Handshake, GateDesc::Handshake { brief });
     let _guard = GateGuard { w: w.clone(), id: gid };
+    if cfg.early_senders && conn == 0 && matches!(cfg.hs, HsOutcome::Accept) {
+        // the application starts publishing through the handshake's sink before it acknowledges the CONNECT
+        start_senders(&w, &plan, h.sink());
+    }
     let planned = match &cfg.hs {
         HsOutcome::Accept => Outcome::Ok,
         HsOutcome::Refuse(c) => Outcome::Refuse(*c),
@@ -334,7 +338,7 @@ macro_rules! v5_parts {
     let publish = fn_factory_with_config(move |ses: v5::Session<St>| {
         let (w, plan, conn) = (w4.clone(), p4.clone(), ses.conn);
         // the session's sink: start the scripted sender tasks of this connection
-        if conn == 0 {
+        if conn == 0 && !plan.cfg.early_senders {
             start_senders(&w, &plan, ses.sink().clone());
         }
         async move {
